@@ -822,7 +822,9 @@ def stop_in_every_phase(ctx: RunCtx) -> BoundedResult:
                     ok = status in final or (status in avail and queued and (owner is None or status == "REGISTERED"))
                     if not ok:
                         ph = name.split("#")[0]
-                        key = f"left-held:dead-thread-dropped-by-reclaim:{ph}" if (ph in ("fault", "pause") and reclaim) else \
+                        # the waiting-running-child phase runs one more loop iteration (to start the child), i.e. one more slot reclaim, before the stop
+                        reclaimed = reclaim or "waiting-running-child" in phases
+                        key = f"left-held:dead-thread-dropped-by-reclaim:{ph}" if (ph in ("fault", "pause") and reclaimed) else \
                             ("after-hang:" + ph if hung else f"left:{ph}:reclaim={reclaim}")
                         res.failures.append({"what": f"{backend} phases={phases} reclaim={reclaim}: {name} is {status} owner={'the stopped runner' if owner == rid else owner} "
                                                      f"queued={queued} after the stop", "finding_key": key,
